@@ -27,5 +27,7 @@ Definition c_overN := 2.
 Definition c_failRatioNum := 1.
 Definition c_failRatioDen := 2.
 Definition c_tryTimeInterval := 30.
+Definition c_conf_max_scan_token := 65536.
+Definition c_conf_blanks : list N := (cons 32%N (cons 10%N (cons 9%N nil))).
 Definition c_rogger_queue_cap := 10000.
 Definition c_rogger_wait_flush_timeout_ms := 1000.
